@@ -164,6 +164,23 @@ for ext in ('.p8', '.p8.png'):
             g.gfx = None if ext == '.p8' else g.gfx
             pfile.to_file(g, dest)
         attempt('section / version encoder raises', ext, exists, badversion, True)
+# the commands that write over their input: luafmt --overwrite / luamin on carts whose code the parser does not take to its end
+from pico8 import tool
+import io, contextlib
+for code in (b'x = 1\na |= 1\ny = 2\n', b'local a<const> = 1\n', b'x = 1\n?x,y\n', b'x = = 1\n', b'if x then\n'):
+    for cmd in (['luafmt', '--overwrite'], ['luafmt'], ['luamin'], ['writep8']):
+        n += 1
+        src = os.path.join(work, 'cli%d.p8' % n)
+        body = b'pico-8 cartridge // http://www.pico-8.com\nversion 8\n__lua__\n' + code + b'__gfx__\n' + (b'0' * 128 + b'\n') * 2
+        open(src, 'wb').write(body)
+        try:
+            with contextlib.redirect_stdout(io.StringIO()), contextlib.redirect_stderr(io.StringIO()):
+                tool.main(cmd + [src])
+        except BaseException:
+            pass
+        if not os.path.exists(src) or open(src, 'rb').read() != body:
+            bad.append(['p8tool %s on code the parser does not take to its end' % ' '.join(cmd), '.p8', True,
+                        'the input cart was %s' % ('changed' if os.path.exists(src) else 'removed')])
 shutil.rmtree(work, ignore_errors=True)
 print(json.dumps({'n': n, 'bad': bad[:8]}))
 '''
@@ -177,7 +194,7 @@ def native(K):
         return {'timeout': True, 'n': 0, 'bad': []}
     if r.returncode != 0:
         return {'error': r.stderr[-1500:], 'n': 0, 'bad': []}
-    return json.loads(r.stdout)
+    return json.loads(r.stdout.strip().splitlines()[-1])
 
 
 def deductive(chk):
